@@ -1,4 +1,5 @@
 import GeffProofs.Meta
+import GeffProofs.MetaRoundtrip
 /-! # C07 — metadata objects always satisfy the format's invariants
 
 *Every metadata object obtainable through the public API — constructed, parsed from JSON or zarr
@@ -148,6 +149,12 @@ theorem C07_breaking_assignment_is_rejected (env : Env) (o : MetaObj) (ho : Vali
   have hfv := setField_fieldsValid ((validCode_iff env _).1 ho).1 hset
   have hafter : modelAfterOk m' ≠ true := fun h => hbad ((validCode_iff env _).2 ⟨hfv, h⟩)
   simp [step, assign, hset, hafter]
+
+/-- **the specification oracle looks at the right value**: the driver evaluates `Valid` on
+`ofDump d` where `d` is the implementation's observed `model_dump()`; on the dump of any value `m`
+— valid or not — `ofDump` returns exactly `m`, so a verdict on an observed dump is a verdict on
+the object the dump denotes. -/
+theorem C07_oracle_decoder_exact (m : Meta) : ofDump (dump m) = some m := ofDump_dump m
 
 /-! ## the counterexample to the full-strength statement, and non-vacuity -/
 
